@@ -88,19 +88,37 @@ fn sha(path: &str) -> String {
     format!("{}:{:x}", b.len(), h)
 }
 
-/// C14 on the CLI: --export, --import of the exported file, --export onto an existing file
+/// C14 on the CLI, in a private directory: --export, --import of the exported file, then further exports of a DIFFERENT adf
+/// onto the existing file and onto sibling names (no extension, another extension). No file that existed before an export
+/// may change, whatever name is typed.
 fn persist_job(cli: &str, work: &str, id: &str, text: &str) -> Value {
-    let src = format!("{}/pers_{}.adf", work, id);
-    let exp = format!("{}/pers_{}.json", work, id);
-    let _ = std::fs::remove_file(&exp);
+    let dir = format!("{}/pers_{}", work, id);
+    let _ = std::fs::remove_dir_all(&dir);
+    std::fs::create_dir_all(&dir).unwrap();
+    let src = format!("{}/a.adf", dir);
+    let src2 = format!("{}/b.adf", dir);
     std::fs::write(&src, text).unwrap();
+    std::fs::write(&src2, "s(zz).s(yy).ac(zz,c(v)).ac(yy,neg(zz)).").unwrap();
     let run = |args: &[&str]| -> (i32, Vec<String>) {
         match std::process::Command::new(cli).args(args).env_remove("RUST_LOG").env("RUST_BACKTRACE", "0").output() {
             Ok(o) => (o.status.code().unwrap_or(-1), String::from_utf8_lossy(&o.stdout).lines().map(|s| s.to_string()).collect()),
             Err(_) => (-99, vec![]),
         }
     };
+    let snapshot = |dir: &str| -> std::collections::BTreeMap<String, String> {
+        let mut m = std::collections::BTreeMap::new();
+        if let Ok(rd) = std::fs::read_dir(dir) {
+            for e in rd.flatten() {
+                let p = e.path();
+                if p.is_file() {
+                    m.insert(p.file_name().unwrap().to_string_lossy().to_string(), sha(&p.to_string_lossy()));
+                }
+            }
+        }
+        m
+    };
     let sem = ["--grd", "--com", "--stm", "--stmng"];
+    let exp = format!("{}/state.json", dir);
     let mut a1 = vec![src.as_str(), "--lib", "naive", "--export", exp.as_str()];
     a1.extend_from_slice(&sem);
     let (e1, o1) = run(&a1);
@@ -108,16 +126,27 @@ fn persist_job(cli: &str, work: &str, id: &str, text: &str) -> Value {
     let mut a2 = vec![exp.as_str(), "--lib", "naive", "--import"];
     a2.extend_from_slice(&sem);
     let (e2, o2) = run(&a2);
-    // a second export onto the now existing file, from a DIFFERENT adf, must not touch it
-    let src2 = format!("{}/pers_{}_b.adf", work, id);
-    std::fs::write(&src2, "s(zz).ac(zz,c(v)).").unwrap();
-    let (e3, _o3) = run(&[src2.as_str(), "--lib", "naive", "--export", exp.as_str(), "--grd"]);
-    let h2 = sha(&exp);
-    for f in [&src, &exp, &src2] {
-        let _ = std::fs::remove_file(f);
+    // later exports from another adf: onto the same name, and onto sibling names
+    let mut changed: Vec<String> = Vec::new();
+    let mut reexport_exit = 0;
+    for name in ["state.json", "state", "state.v2", "state.json.bak"] {
+        let before = snapshot(&dir);
+        let target = format!("{}/{}", dir, name);
+        let (e3, _) = run(&[src2.as_str(), "--lib", "naive", "--export", target.as_str(), "--grd"]);
+        if name == "state.json" {
+            reexport_exit = e3;
+        }
+        let after = snapshot(&dir);
+        for (f, h) in before.iter() {
+            if after.get(f) != Some(h) {
+                changed.push(format!("{} (while exporting to {})", f, name));
+            }
+        }
     }
+    let h2 = sha(&exp);
+    let _ = std::fs::remove_dir_all(&dir);
     json!({"kind": "cli_persist", "id": id, "text": text, "export_exit": e1, "export_out": o1, "import_exit": e2, "import_out": o2,
-           "reexport_exit": e3, "hash_before": h1, "hash_after": h2})
+           "reexport_exit": reexport_exit, "hash_before": h1, "hash_after": h2, "changed_existing": changed})
 }
 
 pub fn main(args: &[String]) {
